@@ -77,7 +77,7 @@ func runC03(c *Ctx, r *Report) {
 	r.Rule("C03/write-sequence", "sendRPC writes framed bytes + return, one more return exactly under 1.1, then waits; the response reports the same serialisation", 4)
 	r.Rule("C03/selfclose-guard", "ForceSelfClosingTags rewrites a pattern match only when its opening tag name equals its closing tag name (the pattern alone has no back-reference); group 1 of the pattern starts right behind the opening '<'", 2)
 	r.Rule("C03/op-options-applied", "netconf.NewOperation applies the full per-operation option list (filter, defaults, commit settings) in order", 1)
-	r.Rule("C03/element-wiring", "RFC element names in struct tags; builders wire each parameter to its element; public methods pass arguments in position", 40)
+	r.Rule("C03/element-wiring", "RFC element names in struct tags; builders wire each parameter to its element; public methods pass arguments in position", 20)
 	r.Rule("C03/options", "NETCONF operation options store the setting they name", 14)
 
 	checkSerializeFraming(c, r)
@@ -437,6 +437,8 @@ func checkBuilderWiring(c *Ctx, r *Report) {
 		{"buildValidateElem", map[string]string{"Source": "netconf.Driver.buildSourceElem({d},{0})"}},
 		{"buildCommitElem", map[string]string{"Persist": "{2}", "PersistID": "{3}"}},
 	}
+	// the specification names the builders (buildPayload, buildSourceElem ...): they stay opaque calls
+	keepBuilders := func(f *ssa.Function) bool { return strings.HasPrefix(f.Name(), "build") }
 	for _, sp := range specs {
 		fn := c.LookupFunc("driver/netconf", "Driver", sp.name)
 		if fn == nil {
@@ -451,7 +453,7 @@ func checkBuilderWiring(c *Ctx, r *Report) {
 			}
 			return t
 		}
-		paths := EnumeratePaths(c, fn, &dtConfig{IsAtomCall: pure})
+		paths := EnumeratePaths(c, fn, &dtConfig{IsAtomCall: pure, Keep: keepBuilders})
 		var probs []string
 		okPaths := 0
 		for _, p := range paths {
@@ -487,7 +489,7 @@ func checkBuilderWiring(c *Ctx, r *Report) {
 	}
 	// commit: confirmed / timeout
 	if fn := c.LookupFunc("driver/netconf", "Driver", "buildCommitElem"); fn != nil {
-		paths := EnumeratePaths(c, fn, &dtConfig{IsAtomCall: pure})
+		paths := EnumeratePaths(c, fn, &dtConfig{IsAtomCall: pure, Keep: keepBuilders})
 		ok := len(paths) > 0
 		conf := "param:" + fn.Params[1].Name()
 		tmo := "param:" + fn.Params[2].Name()
@@ -513,7 +515,7 @@ func checkBuilderWiring(c *Ctx, r *Report) {
 			r.Anchor(rule, "(*netconf.Driver)."+sp.name)
 			continue
 		}
-		paths := EnumeratePaths(c, fn, &dtConfig{IsAtomCall: pure})
+		paths := EnumeratePaths(c, fn, &dtConfig{IsAtomCall: pure, Keep: keepBuilders})
 		ok := len(paths) == 1
 		for _, p := range paths {
 			if p.Locals["&local:complit#2.XMLName.Local"] != "param:"+fn.Params[1].Name() || p.Locals["local:complit."+sp.field] != "local:complit#2" {
@@ -523,7 +525,7 @@ func checkBuilderWiring(c *Ctx, r *Report) {
 		r.Check(ok, rule, "builder "+sp.name, c.Pos(fn.Pos()), "datastore name becomes the inner element", sp.name+" does not emit the datastore name it was given as the inner element")
 	}
 	if fn := c.LookupFunc("driver/netconf", "Driver", "buildFilterElem"); fn != nil {
-		paths := EnumeratePaths(c, fn, &dtConfig{IsAtomCall: pure})
+		paths := EnumeratePaths(c, fn, &dtConfig{IsAtomCall: pure, Keep: keepBuilders})
 		f := "param:" + fn.Params[1].Name()
 		ft := "param:" + fn.Params[2].Name()
 		ok := len(paths) > 0
@@ -557,7 +559,7 @@ func checkBuilderWiring(c *Ctx, r *Report) {
 		r.Check(ok && seenSub && seenX, rule, "builder buildFilterElem", c.Pos(fn.Pos()), "subtree -> payload, xpath -> select attribute", "the filter is not placed as inner XML for subtree filters and as the select attribute for xpath filters")
 	}
 	if fn := c.LookupFunc("driver/netconf", "Driver", "buildDefaultsElem"); fn != nil {
-		paths := EnumeratePaths(c, fn, &dtConfig{IsAtomCall: pure})
+		paths := EnumeratePaths(c, fn, &dtConfig{IsAtomCall: pure, Keep: keepBuilders})
 		dt := "param:" + fn.Params[1].Name()
 		ok := false
 		nsC := c.LookupConst("driver/netconf", "defaultNamespace")
